@@ -8,7 +8,7 @@ pub fn prop() -> Prop {
     Prop {
         id: "C16",
         level: "fault_enumeration",
-        rule: "inputs: clean and noisy streams over a 7-value core (1..3 values, 4 separator kinds; thorough adds all pairs) plus three long ones (2500 rows, a 9000-character string, 700 noisy lines) faulted at the first and last 40 offsets and around 255, 256, 1 KiB, 4 KiB, 8 KiB, 16 KiB, 32 KiB, 64 KiB of the input and of the output; faults: the reader fails when asked for the byte at EVERY offset 0..=len (after 0,1,2 Interrupted results; for inputs of <=60 bytes also with 8 other io::ErrorKinds: BrokenPipe, ConnectionReset, ConnectionAborted, UnexpectedEof, TimedOut, WouldBlock, InvalidData, PermissionDenied), Interrupted at every offset without failure, stdout fails after accepting EVERY number of bytes 0..len(out) (plain, with 1- and 3-byte short writes, with Interrupted on every 2nd call), stderr likewise under --on-error=stderr, unopenable files in every position of a file list; x 4 policies x 4 pipelines (streaming, select, sort, group); non-trivial = the fault offset falls strictly inside the input/output; distinct by construction",
+        rule: "inputs: clean and noisy streams over a 7-value core (1..3 values, 4 separator kinds; thorough adds all pairs) plus three long ones (2500 rows, a 9000-character string, 700 noisy lines) faulted at the first and last 40 offsets and around 255, 256, 1 KiB, 4 KiB, 8 KiB, 16 KiB, 32 KiB, 64 KiB of the input and of the output; faults: the reader fails when asked for the byte at EVERY offset 0..=len (after 0,1,2 Interrupted results; for inputs of <=60 bytes also with 8 other io::ErrorKinds: BrokenPipe, ConnectionReset, ConnectionAborted, UnexpectedEof, TimedOut, WouldBlock, InvalidData, PermissionDenied), Interrupted at every offset without failure, stdout fails after accepting EVERY number of bytes 0..len(out) (plain, with 1- and 3-byte short writes, with Interrupted on every 2nd call), stderr likewise under --on-error=stderr, unopenable files in every position of a file list; x 4 policies x 11 pipelines (streaming, select, sort, group, --utf8-strings, text, csv, and four with --skip/--take: alone, pretty style, behind a sort, behind split and filter); inputs with \\uXXXX escapes in strings and member names; non-trivial = the fault offset falls strictly inside the input/output; distinct by construction",
         explanation: "every fault point of every history is enumerated on the real code with fault-injecting Read/Write implementations; oracle: Err (not Ok, not a panic), the reader is never asked again after its failure, stdout is a prefix of the fault-free stdout; a fault the fault-free run never reaches must change nothing",
         assumptions: COMMON_ASSUMPTIONS.to_vec(),
         guards: vec!["other-error-kinds", "raw-utf8-row-longer-than-60-bytes", "fault-beyond-8192", "read-fault-inside-value", "read-fault-at-eof", "write-fault-inside-row", "interrupted-then-error", "short-writes", "stderr-write-fault", "missing-file"],
@@ -20,7 +20,7 @@ pub fn prop() -> Prop {
 }
 
 const POLICIES: [&str; 4] = ["ignore", "stdout", "stderr", "panic"];
-const PIPES: [(&str, &[&str], bool); 7] = [
+const PIPES: [(&str, &[&str], bool); 11] = [
     ("stream", &[], true),
     ("select", &["--select=.=v", "--select=(size .)=n"], true),
     ("sort", &["--sort-by=(stringify .)"], false),
@@ -28,6 +28,11 @@ const PIPES: [(&str, &[&str], bool); 7] = [
     ("utf8", &["--utf8-strings"], true),
     ("text", &["--output-style=text"], true),
     ("csv", &["--output-style=csv", "--select=.=v"], true),
+    // limits: the row that reaches the limit is also the row on which the run stops reading
+    ("take", &["--take=2"], true),
+    ("skip-take-pretty", &["--skip=1", "--take=1", "--style=pretty"], true),
+    ("sort-take", &["--sort-by=(stringify .)", "--take=2"], false),
+    ("split-filter-take", &["--split-by=(? (array? .) . (push [] .))", "--filter=(not (null? .))", "--take=3"], true),
 ];
 const CORE: [&str; 7] = ["1", "\"aé\"", "[1,{\"b\":null}]", "{\"k\":\"v\",\"n\":[2]}", "true", "-2.5e3", "null"];
 
@@ -49,6 +54,9 @@ fn inputs(tier: Tier) -> Vec<Vec<u8>> {
     }
     // touching values
     v.push("[1][2]{\"a\":1}\"x\"".into());
+    // escapes inside strings and member names (a fault can fall between the bytes of one escape)
+    v.push("\"\\u00e9x\" {\"k\\u0041\": \"\\ud83d\\ude03\"} [\"a\\u0062c\\n\\\\\", 1]".into());
+    v.push("[[{\"\\u006b\": \"\\t\\u2028\"}]] 7\n".into());
     // noisy streams
     for n in ["} 1 ] 2", "1 x \"a\" , [1] :", "nul 1 tru {\"a\":} 2", "\"abc", "[1,2", "1 \u{e9} 2"] {
         v.push(n.to_string());
